@@ -71,6 +71,11 @@ class C01(core.Prop):
             for cut, comps in parts:
                 for oi in range(nopt):
                     out.append(pl.make_case(smi, cut, comps, OPT_VARIANTS[oi]))
+                # the same description handed over as a base *graph* built in another order than the reader builds it
+                # (MoleculeResolver.from_graph): node keys identify the coarse nodes, the insertion order means nothing
+                if len(comps) >= 2:
+                    for entry in (('graph_rev',) if tier == 'quick' else ('graph_rev', 'graph_rot')):
+                        out.append(pl.make_case(smi, cut, comps, dict(OPT_VARIANTS[0], entry=entry)))
         return out
 
     def build(self, shape):
@@ -78,7 +83,8 @@ class C01(core.Prop):
         return {'text': r.text, 'uncut': '{[#M]}.{#M=%s}' % shape['smiles'], 'holes': r.holes}
 
     def execute(self, M, shape, inp):
-        return [core.guard(pl.run_resolver, M, inp['text']), core.guard(pl.run_resolver, M, inp['uncut'])]
+        return [core.guard(pl.run_resolver, M, inp['text'], entry=shape['opts'].get('entry', 'string')),
+                core.guard(pl.run_resolver, M, inp['uncut'])]
 
     def oracle(self, shape, inp, obs):
         cut, uncut = obs
